@@ -156,6 +156,12 @@ mod misc {
                 ));
             };
 
+            if num_elements <= 0 {
+                return Err(StoryError::InvalidStoryState(
+                    "Shuffle sequence has no elements".to_owned(),
+                ));
+            }
+
             let loop_index = seq_count / num_elements;
             let iteration_index = seq_count % num_elements;
 
